@@ -97,7 +97,18 @@ CLAIMED = {
         design="6/C11"),
 }
 
+HOLD = {"C20"}   # builder still working
 ALL = ["C%02d" % i for i in range(1, 21)]
+# entries written by the per-property builders: tools/manifest_cXX.json
+import glob
+for f in sorted(glob.glob(os.path.join(VERIF, "tools", "manifest_c*.json"))):
+    pid = "C" + os.path.basename(f)[len("manifest_c"):-len(".json")]
+    if pid in CLAIMED or pid in globals().get("HOLD", ()):
+        continue
+    if os.path.exists(os.path.join(VERIF, "coq", "theories", "props", pid + ".v")) and \
+       os.path.exists(os.path.join(VERIF, "tools", pid.lower() + ".py")):
+        d = json.load(open(f))
+        CLAIMED[pid] = dict(text=d["text"], note=d["note"], technique=d["technique"], design=d.get("design", "6/" + pid))
 NOT_YET = "check not built yet in this session (design in DESIGN.md section 6); will be claimed once its model, theorems and correspondence exist"
 
 
